@@ -400,6 +400,8 @@ var ruleJ1 = &Rule{
 					status, msg = OK, "returned"
 				case errReturnedNext(gg, info, d.call):
 					status, msg = OK, "returned by the following return"
+				case c.errFlowsOut(fi, d.call):
+					status, msg = OK, "on failure every path to a return yields the error"
 				}
 				obls = append(obls, Obl{Key: k, Pos: c.pos(d.call.Pos()), Status: status, Msg: msg})
 			}
@@ -762,6 +764,31 @@ var ruleC5 = &Rule{
 						}
 						return true
 					})
+				}
+				if table == nil {
+					// a package-level table, or one returned by a function of the same package (`return []row{…}`)
+					switch x := ast.Unparen(loop.X).(type) {
+					case *ast.Ident:
+						table = c.initLiteralOf(fi.Pkg, info.Uses[x])
+					case *ast.CallExpr:
+						if hf, ok := calleeObj(info, x).(*types.Func); ok && hf.Pkg() == fi.Pkg.Types {
+							if hd := c.declOf(fi.Pkg, hf); hd != nil && hd.Body != nil {
+								nret := 0
+								ast.Inspect(hd.Body, func(m ast.Node) bool {
+									if r, ok := m.(*ast.ReturnStmt); ok {
+										nret++
+										if len(r.Results) == 1 {
+											table, _ = ast.Unparen(r.Results[0]).(*ast.CompositeLit)
+										}
+									}
+									return true
+								})
+								if nret != 1 {
+									table = nil
+								}
+							}
+						}
+					}
 				}
 				if table == nil {
 					return true
@@ -1606,4 +1633,101 @@ func settingsKeyDerivation(fn *ssa.Function, bind map[ssa.Value]ssa.Value, depth
 		}
 	}
 	return ""
+}
+
+// ssaCallAt: the SSA call instruction for an AST call expression of fi (in the declaration or one of its literals).
+func (c *Ctx) ssaCallAt(fi *FuncInfo, call *ast.CallExpr) ssa.CallInstruction {
+	root := c.ssaFuncOf(fi)
+	if root == nil {
+		return nil
+	}
+	var found ssa.CallInstruction
+	var walk func(fn *ssa.Function)
+	walk = func(fn *ssa.Function) {
+		for _, b := range fn.Blocks {
+			for _, ins := range b.Instrs {
+				if ci, ok := ins.(ssa.CallInstruction); ok && ci.Pos() == call.Lparen {
+					found = ci
+				}
+			}
+		}
+		for _, an := range fn.AnonFuncs {
+			walk(an)
+		}
+	}
+	walk(root)
+	return found
+}
+
+// errFlowsOut: assuming the call failed (its error result is non-nil), every path from the call to a return of the enclosing
+// function returns a value computed from that error (possibly after logging it): at tests of the error only the non-nil edge is
+// followed.
+func (c *Ctx) errFlowsOut(fi *FuncInfo, call *ast.CallExpr) bool {
+	ci := c.ssaCallAt(fi, call)
+	if ci == nil {
+		return false
+	}
+	cv, ok := ci.(*ssa.Call)
+	if !ok {
+		return false
+	}
+	var E ssa.Value = cv
+	if tup, ok := cv.Type().(*types.Tuple); ok {
+		E = nil
+		if cv.Referrers() != nil {
+			for _, r := range *cv.Referrers() {
+				if ex, ok := r.(*ssa.Extract); ok && ex.Index == tup.Len()-1 {
+					E = ex
+				}
+			}
+		}
+	}
+	if E == nil || !types.Identical(E.Type(), types.Universe.Lookup("error").Type()) {
+		return false
+	}
+	fn := cv.Parent()
+	isNil := func(v ssa.Value) bool { k, ok := v.(*ssa.Const); return ok && k.Value == nil }
+	yields := func(r *ssa.Return) bool {
+		if len(r.Results) == 0 {
+			return false
+		}
+		last := r.Results[len(r.Results)-1]
+		return dependsOnValue(last, func(x ssa.Value) bool { return x == E }, map[ssa.Value]bool{}, 0)
+	}
+	seen := map[*ssa.BasicBlock]bool{}
+	okAll, anyRet := true, false
+	var walk func(b *ssa.BasicBlock, from int)
+	walk = func(b *ssa.BasicBlock, from int) {
+		for i := from; i < len(b.Instrs); i++ {
+			switch x := b.Instrs[i].(type) {
+			case *ssa.Return:
+				anyRet = true
+				if !yields(x) {
+					okAll = false
+				}
+				return
+			case *ssa.If:
+				if cmp, ok := x.Cond.(*ssa.BinOp); ok && (cmp.Op == token.NEQ || cmp.Op == token.EQL) && ((cmp.X == E && isNil(cmp.Y)) || (cmp.Y == E && isNil(cmp.X))) {
+					next := b.Succs[0]
+					if cmp.Op == token.EQL {
+						next = b.Succs[1]
+					}
+					if !seen[next] {
+						seen[next] = true
+						walk(next, 0)
+					}
+					return
+				}
+			}
+		}
+		for _, s := range b.Succs {
+			if !seen[s] {
+				seen[s] = true
+				walk(s, 0)
+			}
+		}
+	}
+	walk(cv.Block(), instrIndex(cv)+1)
+	_ = fn
+	return anyRet && okAll
 }
